@@ -69,71 +69,7 @@ def run(ck):
         if pl[0] in ("tproj", "field") and pl[1] == ("param", "self"):
             SELF0 = pl
 
-    # ---- C09-Q push_error
-    ex, ps = ctx.summarize(lib, Q + "push_error", ck)
-    if ck.anchor("C09-Q", Q + "push_error", ex):
-        ck.floor("C09-Q", "paths of push_error", len(ex), 2)
-        for i, x in enumerate(ex):
-            dc = deque_calls(x)
-            stores = [e for e in x.effects if e[0] == "store"]
-            key = "push_error:path#%d" % i
-            first = dc[0] if dc else None
-            if first is not None and first[1] == DEQ + "is_full" and first[2] == (SELF0,) and x.kind == "return":
-                # check-then-act form: `if queue.is_full() { replace the newest } else { push_back }` (push_back of a bounded
-                # deque fails exactly when it is full, so the two forms are the same)
-                isfull = None
-                for c in x.conds:
-                    if c[0] == "true" and pathsum.strip_sites(c[1]) == pathsum.strip_sites(("call",) + first[1:]):
-                        isfull = c[2]
-                rest = dc[1:]
-                if isfull is False:
-                    ok = len(rest) == 1 and rest[0][1] == DEQ + "push_back" and rest[0][2] == (SELF0, ("param", "error")) and not stores
-                    ck.judge(ok, "C09-Q", key + ":stored", "not full: push_back(self.0, error) and nothing else",
-                             "queue not full: operations are %s, stores %s" % ([d[1][len(DEQ):] for d in rest], len(stores)))
-                elif isfull is True:
-                    ok = len(rest) == 1 and rest[0][1] == DEQ + "back_mut" and rest[0][2] == (SELF0,)
-                    ck.judge(ok, "C09-Q", key + ":overflow-ops", "queue full: only back_mut(self.0) follows", "queue full: operations are %s (must be exactly back_mut)" % [d[1][len(DEQ):] for d in rest])
-                    if ok:
-                        bm = ("call",) + rest[0][1:]
-                        some = ps.decided(pathsum.St(x.conds), bm, SOME)
-                        if some:
-                            okst = len(stores) == 1 and stores[0][1] == ("payload", bm, SOME, 0) and stores[0][2] == ("ctor", QOVER, ()) and stores[0][3] is None
-                            ck.judge(okst, "C09-Q", key + ":overflow-store", "newest entry := Error::QueueOverflow", "overflow path stores %s" % [(show_term(s_[1]), show_term(s_[2])) for s_ in stores])
-                        elif some is False:
-                            ck.judge(not stores, "C09-Q", key + ":overflow-empty", "capacity-0 corner: nothing to replace", "store without a back element")
-                        else:
-                            ck.bad("C09-Q", key + ":overflow-store", "overflow path does not replace the newest entry by QueueOverflow")
-                else:
-                    ck.bad("C09-Q", key, "is_full() is not tested on this path")
-                continue
-            ok0 = first is not None and first[1] == DEQ + "push_back" and first[2] == (SELF0, ("param", "error")) and x.kind == "return"
-            ck.judge(ok0, "C09-Q", key + ":push_back-first", "first queue operation is push_back(self.0, error)",
-                     "first queue operation is %s" % (first[1] + str([show_term(a) for a in first[2]]) if first else "none"), data=pathsum.show_exit(x))
-            if not ok0:
-                continue
-            pb = ("call",) + first[1:]
-            full = ps.decided(pathsum.St(x.conds), pb, OK)
-            if full is None:
-                ck.bad("C09-Q", key, "push_back's result is not inspected on this path (overflow would be silent)", data=pathsum.show_exit(x))
-            elif full is True:
-                ck.judge(len(dc) == 1 and not stores, "C09-Q", key + ":stored", "push_back succeeded: nothing else touches the queue",
-                         "after a successful push_back the queue is modified again: %s %s" % ([d[1] for d in dc[1:]], stores))
-            else:
-                names = [d[1][len(DEQ):] for d in dc[1:]]
-                ok = names == ["back_mut"] and dc[1][2] == (SELF0,)
-                ck.judge(ok, "C09-Q", key + ":overflow-ops", "queue full: only back_mut(self.0) follows",
-                         "queue full: operations after the failed push_back are %s (must be exactly back_mut)" % names)
-                if ok:
-                    bm = ("call",) + dc[1][1:]
-                    some = ps.decided(pathsum.St(x.conds), bm, SOME)
-                    if some:
-                        okst = len(stores) == 1 and stores[0][1] == ("payload", bm, SOME, 0) and stores[0][2] == ("ctor", QOVER, ()) and stores[0][3] is None
-                        ck.judge(okst, "C09-Q", key + ":overflow-store", "newest entry := Error::QueueOverflow",
-                                 "overflow path stores %s" % [(show_term(s[1]), show_term(s[2])) for s in stores])
-                    elif some is False:
-                        ck.judge(not stores, "C09-Q", key + ":overflow-empty", "capacity-0 corner: nothing to replace", "store without a back element")
-                    else:
-                        ck.bad("C09-Q", key + ":overflow-store", "overflow path does not replace the newest entry by QueueOverflow")
+    rule_push(ck, lib, SELF0)
     ex, ps = ctx.summarize(lib, Q + "pop_error", ck)
     if ck.anchor("C09-Q", Q + "pop_error", ex):
         for i, x in enumerate(ex):
@@ -441,3 +377,88 @@ def table_syntactic(lib, path):
                     val = b["lit"]["v"]
                     out[name] = -val if neg else val
     return out or None
+
+def storage_place(ck, lib):
+    SELF0 = ("tproj", ("param", "self"), 0)
+    places = set()
+    for fn in ("push_error", "pop_error", "error_count"):
+        ex_, _ = ctx.summarize(lib, Q + fn, ck)
+        for x_ in ex_ or []:
+            for e_ in x_.effects:
+                if e_[0] == "call" and e_[1].startswith(DEQ) and e_[2]:
+                    places.add(e_[2][0])
+    if len(places) == 1:
+        pl = next(iter(places))
+        if pl[0] in ("tproj", "field") and pl[1] == ("param", "self"):
+            SELF0 = pl
+    return SELF0
+
+
+def rule_push(ck, lib, SELF0):
+    """C09-Q for push_error: the error handed in is stored (push_back), and only when the queue is full the newest entry is
+    replaced by QueueOverflow - no report is dropped or merged on the way into the queue."""
+    # ---- C09-Q push_error
+    ex, ps = ctx.summarize(lib, Q + "push_error", ck)
+    if ck.anchor("C09-Q", Q + "push_error", ex):
+        ck.floor("C09-Q", "paths of push_error", len(ex), 2)
+        for i, x in enumerate(ex):
+            dc = deque_calls(x)
+            stores = [e for e in x.effects if e[0] == "store"]
+            key = "push_error:path#%d" % i
+            first = dc[0] if dc else None
+            if first is not None and first[1] == DEQ + "is_full" and first[2] == (SELF0,) and x.kind == "return":
+                # check-then-act form: `if queue.is_full() { replace the newest } else { push_back }` (push_back of a bounded
+                # deque fails exactly when it is full, so the two forms are the same)
+                isfull = None
+                for c in x.conds:
+                    if c[0] == "true" and pathsum.strip_sites(c[1]) == pathsum.strip_sites(("call",) + first[1:]):
+                        isfull = c[2]
+                rest = dc[1:]
+                if isfull is False:
+                    ok = len(rest) == 1 and rest[0][1] == DEQ + "push_back" and rest[0][2] == (SELF0, ("param", "error")) and not stores
+                    ck.judge(ok, "C09-Q", key + ":stored", "not full: push_back(self.0, error) and nothing else",
+                             "queue not full: operations are %s, stores %s" % ([d[1][len(DEQ):] for d in rest], len(stores)))
+                elif isfull is True:
+                    ok = len(rest) == 1 and rest[0][1] == DEQ + "back_mut" and rest[0][2] == (SELF0,)
+                    ck.judge(ok, "C09-Q", key + ":overflow-ops", "queue full: only back_mut(self.0) follows", "queue full: operations are %s (must be exactly back_mut)" % [d[1][len(DEQ):] for d in rest])
+                    if ok:
+                        bm = ("call",) + rest[0][1:]
+                        some = ps.decided(pathsum.St(x.conds), bm, SOME)
+                        if some:
+                            okst = len(stores) == 1 and stores[0][1] == ("payload", bm, SOME, 0) and stores[0][2] == ("ctor", QOVER, ()) and stores[0][3] is None
+                            ck.judge(okst, "C09-Q", key + ":overflow-store", "newest entry := Error::QueueOverflow", "overflow path stores %s" % [(show_term(s_[1]), show_term(s_[2])) for s_ in stores])
+                        elif some is False:
+                            ck.judge(not stores, "C09-Q", key + ":overflow-empty", "capacity-0 corner: nothing to replace", "store without a back element")
+                        else:
+                            ck.bad("C09-Q", key + ":overflow-store", "overflow path does not replace the newest entry by QueueOverflow")
+                else:
+                    ck.bad("C09-Q", key, "is_full() is not tested on this path")
+                continue
+            ok0 = first is not None and first[1] == DEQ + "push_back" and first[2] == (SELF0, ("param", "error")) and x.kind == "return"
+            ck.judge(ok0, "C09-Q", key + ":push_back-first", "first queue operation is push_back(self.0, error)",
+                     "first queue operation is %s" % (first[1] + str([show_term(a) for a in first[2]]) if first else "none"), data=pathsum.show_exit(x))
+            if not ok0:
+                continue
+            pb = ("call",) + first[1:]
+            full = ps.decided(pathsum.St(x.conds), pb, OK)
+            if full is None:
+                ck.bad("C09-Q", key, "push_back's result is not inspected on this path (overflow would be silent)", data=pathsum.show_exit(x))
+            elif full is True:
+                ck.judge(len(dc) == 1 and not stores, "C09-Q", key + ":stored", "push_back succeeded: nothing else touches the queue",
+                         "after a successful push_back the queue is modified again: %s %s" % ([d[1] for d in dc[1:]], stores))
+            else:
+                names = [d[1][len(DEQ):] for d in dc[1:]]
+                ok = names == ["back_mut"] and dc[1][2] == (SELF0,)
+                ck.judge(ok, "C09-Q", key + ":overflow-ops", "queue full: only back_mut(self.0) follows",
+                         "queue full: operations after the failed push_back are %s (must be exactly back_mut)" % names)
+                if ok:
+                    bm = ("call",) + dc[1][1:]
+                    some = ps.decided(pathsum.St(x.conds), bm, SOME)
+                    if some:
+                        okst = len(stores) == 1 and stores[0][1] == ("payload", bm, SOME, 0) and stores[0][2] == ("ctor", QOVER, ()) and stores[0][3] is None
+                        ck.judge(okst, "C09-Q", key + ":overflow-store", "newest entry := Error::QueueOverflow",
+                                 "overflow path stores %s" % [(show_term(s[1]), show_term(s[2])) for s in stores])
+                    elif some is False:
+                        ck.judge(not stores, "C09-Q", key + ":overflow-empty", "capacity-0 corner: nothing to replace", "store without a back element")
+                    else:
+                        ck.bad("C09-Q", key + ":overflow-store", "overflow path does not replace the newest entry by QueueOverflow")
